@@ -221,7 +221,8 @@ def oracle(sc, res):
 
 
 FILES = ['theories/Base.v', 'theories/gen/Codec.v', 'theories/gen/Tp21Gen.v', 'theories/gen/CaGen.v', 'theories/CodecGlue.v',
-         'theories/Model21.v', 'theories/Replay21.v', 'proofs/CodecProofs.v', 'proofs/Flat.v', 'proofs/TimerProofs.v']
+         'theories/Model21.v', 'theories/Replay21.v', 'proofs/CodecProofs.v', 'proofs/Flat.v', 'proofs/TimerProofs.v',
+         'proofs/RobustProofs.v', 'proofs/NoOversleep.v', 'proofs/NoOversleepTimers.v']
 
 
 def run(out, tier, rng, work):
